@@ -10,144 +10,144 @@ const h4const = "db19/stor/mmapstor.go:mmapChunkSize=131072"
 var props = map[string]propDef{
 	"C17": {
 		ID: "C17", Harness: "h1pq", Mode: "C17", Pkgs: []string{"util/queue"},
-		QuickS: 40, ThoroughS: 900, Level: "exploration",
+		QuickS: 40, ThoroughS: 600, Level: "exploration",
 		Rule: "each run: 2-6 producer tasks put <=40 unique messages (tape-chosen priority 0-3, own or shared transaction id) into the real PriorityQueue while one consumer task gets them; the tape picks the policy and every interleaving at each mutex/cond operation. Non-trivial: at least 3 messages and at least one pair of operations of different tasks overlapped in time. Distinct: run digest (all scheduling decisions and put/get events).",
 		Assume: []string{"sync.Mutex and sync.Cond are replaced by the simulated primitives of simrt/simsync (Signal wakes a tape-chosen waiter)", "interleavings are explored at synchronisation operations only", "porcupine v1.3.0; histories whose check exceeds 1 s real time are counted as unknown, never reported"},
 		Comps:  map[string]string{"util/queue.PriorityQueue": "real", "sync primitives": "simulated (simsync)", "db19 checker": "stub: one consumer task calling Get"},
 	},
 	"C18": {
 		ID: "C18", Harness: "h2alloc", Mode: "C18", Pkgs: []string{"db19/stor"},
-		QuickS: 40, ThoroughS: 900, Level: "exploration",
+		QuickS: 40, ThoroughS: 600, Level: "exploration",
 		Rule: "each run: 2-6 allocator tasks perform <=60 Alloc(n) calls on the real Stor over a heap store with tape-chosen chunk size 64-4096, sizes biased to 1, chunk-1, chunk, chunk/2+-1, chunk/4+-1; the tape decides the interleaving at every atomic operation and at the extend lock. Non-trivial: at least 3 allocations succeeded and at least 2 chunks were used (extend ran). Distinct: run digest (scheduling decisions and returned offsets).",
 		Assume: []string{"sync/atomic operations are sequentially consistent scheduling points (simatomic); the extend lock is a simulated mutex", "heap store instead of mmap (chunk size is a knob so that chunk boundaries are crossed often)"},
 		Comps:  map[string]string{"db19/stor.Stor (Alloc, extend, Data, Size)": "real", "storage implementation": "real heapStor (in-memory chunks)", "sync/atomic, sync.Mutex": "simulated scheduling points"},
 	},
 	"C01": {
 		ID: "C01", Harness: "h3txn", Mode: "C01", Pkgs: dbPkgs,
-		QuickS: 60, ThoroughS: 1200, Recycle: 400, Level: "exploration",
+		QuickS: 60, ThoroughS: 600, Recycle: 400, Level: "exploration",
 		Rule: "each run: tape-chosen schema family (A one table with key/index/unique; B composite key + key() table; C parent/child with block / cascade / cascade update foreign key; D two tables), 1-6 update clients x 1-5 transactions x 1-8 operations (lookup, forward/backward/partial scan, output, update, delete, think, abort/complete) over a 2-8 value key domain, 0-3 long-lived readers, optional admin client (index creation on a populated table, persist, full check), with MaxAge 3-20 ticks, persist interval 0.3-60 s, btree split 4-100, chunk size 16-128 KB, hash degraded to 64/16/6 bits; the tape decides every interleaving of clients, checker, merger and the 16 workers. Non-trivial: at least 2 commits were published and (some transaction committed after another transaction's commit was published since its snapshot, or at least 4 non-commit states (merges, persists, schema changes) were published). Distinct: run digest. Mix for this property: favours scans and small key domains.",
 		Assume: h3assume,
 		Comps: map[string]string{"db19 (Database, Check, CheckCo, tran, state, concur incl. 16 workers, meta, index overlay/ixbuf/btree, stor)": "real", "util/queue, util/ranges, util/ordset": "real", "dbms/query admin parser + DoAdmin": "real", "storage": "real heapStor (in memory)", "query engine / interpreter / triggers": "stub: MakeSuTran returns an empty SuTran; no Trigger_ globals", "sync, sync/atomic, channels, select, time, rand, maphash, log": "simulated seams (simrt)"},
 	},
 	"C02": {
 		ID: "C02", Harness: "h3txn", Mode: "C02", Pkgs: dbPkgs,
-		QuickS: 60, ThoroughS: 1200, Recycle: 400, Level: "exploration",
+		QuickS: 60, ThoroughS: 600, Recycle: 400, Level: "exploration",
 		Rule: "each run: tape-chosen schema family (A one table with key/index/unique; B composite key + key() table; C parent/child with block / cascade / cascade update foreign key; D two tables), 1-6 update clients x 1-5 transactions x 1-8 operations (lookup, forward/backward/partial scan, output, update, delete, think, abort/complete) over a 2-8 value key domain, 0-3 long-lived readers, optional admin client (index creation on a populated table, persist, full check), with MaxAge 3-20 ticks, persist interval 0.3-60 s, btree split 4-100, chunk size 16-128 KB, hash degraded to 64/16/6 bits; the tape decides every interleaving of clients, checker, merger and the 16 workers. Non-trivial: at least 2 commits were published and (some transaction committed after another transaction's commit was published since its snapshot, or at least 4 non-commit states (merges, persists, schema changes) were published). Distinct: run digest. Mix for this property: 1-3 long lived readers.",
 		Assume: h3assume,
 		Comps: map[string]string{"db19 (Database, Check, CheckCo, tran, state, concur incl. 16 workers, meta, index overlay/ixbuf/btree, stor)": "real", "util/queue, util/ranges, util/ordset": "real", "dbms/query admin parser + DoAdmin": "real", "storage": "real heapStor (in memory)", "query engine / interpreter / triggers": "stub: MakeSuTran returns an empty SuTran; no Trigger_ globals", "sync, sync/atomic, channels, select, time, rand, maphash, log": "simulated seams (simrt)"},
 	},
 	"C03": {
 		ID: "C03", Harness: "h3txn", Mode: "C03", Pkgs: dbPkgs,
-		QuickS: 60, ThoroughS: 1200, Recycle: 400, Level: "exploration",
+		QuickS: 60, ThoroughS: 600, Recycle: 400, Level: "exploration",
 		Rule: "each run: tape-chosen schema family (A one table with key/index/unique; B composite key + key() table; C parent/child with block / cascade / cascade update foreign key; D two tables), 1-6 update clients x 1-5 transactions x 1-8 operations (lookup, forward/backward/partial scan, output, update, delete, think, abort/complete) over a 2-8 value key domain, 0-3 long-lived readers, optional admin client (index creation on a populated table, persist, full check), with MaxAge 3-20 ticks, persist interval 0.3-60 s, btree split 4-100, chunk size 16-128 KB, hash degraded to 64/16/6 bits; the tape decides every interleaving of clients, checker, merger and the 16 workers. Non-trivial: at least 2 commits were published and (some transaction committed after another transaction's commit was published since its snapshot, or at least 4 non-commit states (merges, persists, schema changes) were published). Distinct: run digest. Mix for this property: more aborts, think times beyond MaxAge.",
 		Assume: h3assume,
 		Comps: map[string]string{"db19 (Database, Check, CheckCo, tran, state, concur incl. 16 workers, meta, index overlay/ixbuf/btree, stor)": "real", "util/queue, util/ranges, util/ordset": "real", "dbms/query admin parser + DoAdmin": "real", "storage": "real heapStor (in memory)", "query engine / interpreter / triggers": "stub: MakeSuTran returns an empty SuTran; no Trigger_ globals", "sync, sync/atomic, channels, select, time, rand, maphash, log": "simulated seams (simrt)"},
 	},
 	"C06": {
 		ID: "C06", Harness: "h3txn", Mode: "C06", Pkgs: dbPkgs,
-		QuickS: 60, ThoroughS: 1200, Recycle: 400, Level: "exploration",
+		QuickS: 60, ThoroughS: 600, Recycle: 400, Level: "exploration",
 		Rule: "each run: tape-chosen schema family (A one table with key/index/unique; B composite key + key() table; C parent/child with block / cascade / cascade update foreign key; D two tables), 1-6 update clients x 1-5 transactions x 1-8 operations (lookup, forward/backward/partial scan, output, update, delete, think, abort/complete) over a 2-8 value key domain, 0-3 long-lived readers, optional admin client (index creation on a populated table, persist, full check), with MaxAge 3-20 ticks, persist interval 0.3-60 s, btree split 4-100, chunk size 16-128 KB, hash degraded to 64/16/6 bits; the tape decides every interleaving of clients, checker, merger and the 16 workers. Non-trivial: at least 2 commits were published and (some transaction committed after another transaction's commit was published since its snapshot, or at least 4 non-commit states (merges, persists, schema changes) were published). Distinct: run digest. Mix for this property: three-index tables, index creation, cascades.",
 		Assume: h3assume,
 		Comps: map[string]string{"db19 (Database, Check, CheckCo, tran, state, concur incl. 16 workers, meta, index overlay/ixbuf/btree, stor)": "real", "util/queue, util/ranges, util/ordset": "real", "dbms/query admin parser + DoAdmin": "real", "storage": "real heapStor (in memory)", "query engine / interpreter / triggers": "stub: MakeSuTran returns an empty SuTran; no Trigger_ globals", "sync, sync/atomic, channels, select, time, rand, maphash, log": "simulated seams (simrt)"},
 	},
 	"C07": {
 		ID: "C07", Harness: "h3txn", Mode: "C07", Pkgs: dbPkgs,
-		QuickS: 60, ThoroughS: 1200, Recycle: 400, Level: "exploration",
+		QuickS: 60, ThoroughS: 600, Recycle: 400, Level: "exploration",
 		Rule: "each run: tape-chosen schema family (A one table with key/index/unique; B composite key + key() table; C parent/child with block / cascade / cascade update foreign key; D two tables), 1-6 update clients x 1-5 transactions x 1-8 operations (lookup, forward/backward/partial scan, output, update, delete, think, abort/complete) over a 2-8 value key domain, 0-3 long-lived readers, optional admin client (index creation on a populated table, persist, full check), with MaxAge 3-20 ticks, persist interval 0.3-60 s, btree split 4-100, chunk size 16-128 KB, hash degraded to 64/16/6 bits; the tape decides every interleaving of clients, checker, merger and the 16 workers. Non-trivial: at least 2 commits were published and (some transaction committed after another transaction's commit was published since its snapshot, or at least 4 non-commit states (merges, persists, schema changes) were published). Distinct: run digest. Mix for this property: collision mix on key and unique values.",
 		Assume: h3assume,
 		Comps: map[string]string{"db19 (Database, Check, CheckCo, tran, state, concur incl. 16 workers, meta, index overlay/ixbuf/btree, stor)": "real", "util/queue, util/ranges, util/ordset": "real", "dbms/query admin parser + DoAdmin": "real", "storage": "real heapStor (in memory)", "query engine / interpreter / triggers": "stub: MakeSuTran returns an empty SuTran; no Trigger_ globals", "sync, sync/atomic, channels, select, time, rand, maphash, log": "simulated seams (simrt)"},
 	},
 	"C08": {
 		ID: "C08", Harness: "h3txn", Mode: "C08", Pkgs: dbPkgs,
-		QuickS: 60, ThoroughS: 1200, Recycle: 400, Level: "exploration",
+		QuickS: 60, ThoroughS: 600, Recycle: 400, Level: "exploration",
 		Rule: "each run: tape-chosen schema family (A one table with key/index/unique; B composite key + key() table; C parent/child with block / cascade / cascade update foreign key; D two tables), 1-6 update clients x 1-5 transactions x 1-8 operations (lookup, forward/backward/partial scan, output, update, delete, think, abort/complete) over a 2-8 value key domain, 0-3 long-lived readers, optional admin client (index creation on a populated table, persist, full check), with MaxAge 3-20 ticks, persist interval 0.3-60 s, btree split 4-100, chunk size 16-128 KB, hash degraded to 64/16/6 bits; the tape decides every interleaving of clients, checker, merger and the 16 workers. Non-trivial: at least 2 commits were published and (some transaction committed after another transaction's commit was published since its snapshot, or at least 4 non-commit states (merges, persists, schema changes) were published). Distinct: run digest. Mix for this property: parent/child schemas only.",
 		Assume: h3assume,
 		Comps: map[string]string{"db19 (Database, Check, CheckCo, tran, state, concur incl. 16 workers, meta, index overlay/ixbuf/btree, stor)": "real", "util/queue, util/ranges, util/ordset": "real", "dbms/query admin parser + DoAdmin": "real", "storage": "real heapStor (in memory)", "query engine / interpreter / triggers": "stub: MakeSuTran returns an empty SuTran; no Trigger_ globals", "sync, sync/atomic, channels, select, time, rand, maphash, log": "simulated seams (simrt)"},
 	},
 	"C16": {
 		ID: "C16", Harness: "h3txn", Mode: "C16", Pkgs: dbPkgs,
-		QuickS: 60, ThoroughS: 1200, Recycle: 400, Level: "exploration",
+		QuickS: 60, ThoroughS: 600, Recycle: 400, Level: "exploration",
 		Rule: "each run: tape-chosen schema family (A one table with key/index/unique; B composite key + key() table; C parent/child with block / cascade / cascade update foreign key; D two tables), 1-6 update clients x 1-5 transactions x 1-8 operations (lookup, forward/backward/partial scan, output, update, delete, think, abort/complete) over a 2-8 value key domain, 0-3 long-lived readers, optional admin client (index creation on a populated table, persist, full check), with MaxAge 3-20 ticks, persist interval 0.3-60 s, btree split 4-100, chunk size 16-128 KB, hash degraded to 64/16/6 bits; the tape decides every interleaving of clients, checker, merger and the 16 workers. Non-trivial: at least 2 commits were published and (some transaction committed after another transaction's commit was published since its snapshot, or at least 4 non-commit states (merges, persists, schema changes) were published). Distinct: run digest. Mix for this property: tiny commits, persist interval <= 2 s, admin operations.",
 		Assume: h3assume,
 		Comps: map[string]string{"db19 (Database, Check, CheckCo, tran, state, concur incl. 16 workers, meta, index overlay/ixbuf/btree, stor)": "real", "util/queue, util/ranges, util/ordset": "real", "dbms/query admin parser + DoAdmin": "real", "storage": "real heapStor (in memory)", "query engine / interpreter / triggers": "stub: MakeSuTran returns an empty SuTran; no Trigger_ globals", "sync, sync/atomic, channels, select, time, rand, maphash, log": "simulated seams (simrt)"},
 	},
 	"C34": {
 		ID: "C34", Harness: "h5ts", Mode: "C34", Pkgs: []string{"db19", "core"},
-		QuickS: 40, ThoroughS: 900, Recycle: 2000, Level: "exploration",
+		QuickS: 40, ThoroughS: 600, Recycle: 2000, Level: "exploration",
 		Rule: "each run: the bubble clock starts at a tape-chosen millisecond; the real server ticker, the real client expiry task, 1-4 goroutines sharing the client side batching (core.Thread.Timestamp) and 0-3 direct callers of db19.Timestamp each take 1-40 (sometimes 200-700) timestamps with think times of 0 ms - 30 s; 0-2 clock jumps of up to +-1 h; the tape decides every interleaving at the two locks and every time advance. Non-trivial: at least 5 timestamps and at least 2 callers. Distinct: run digest.",
 		Assume: []string{"one client process per run (the batching state is process global); other clients are modelled as direct callers of the server function", "the client reaches the server through a stub IDbms whose Timestamp calls db19.Timestamp (the protocol is H6's subject)"},
 		Comps:  map[string]string{"db19.Timestamp / ticker / StartTimestamps": "real", "core.Thread.Timestamp / tsExpire": "real", "core.SuDate / SuTimestamp arithmetic and comparison": "real", "client-server transport": "stub: IDbms.Timestamp calls db19.Timestamp directly", "clock": "simulated (bubble clock + injected skew)"},
 	},
 	"C04": {
 		ID: "C04", SetConst: h4const, Harness: "h4dura", Mode: "C04", Pkgs: dbPkgs,
-		QuickS: 60, ThoroughS: 1200, Recycle: 60, Level: "exploration",
+		QuickS: 60, ThoroughS: 600, Recycle: 60, Level: "exploration",
 		Rule: "each run: a generated history of 5-40 operations on a real memory mapped database file in a scratch directory: admin requests (create / ensure / alter create|drop|rename / rename / view / drop, valid and invalid, with foreign keys incl. self references and requests that must be refused), sequential transactions (insert / update / delete incl. cascades and large records), explicit persists, think times up to 70 s (ticker persists, chain flattening), clean restarts; knobs: persist interval 0.3-60 s, btree split 4-100, hash degraded to 64/16/6 bits, 1-4 workers; the tape decides every interleaving of the driver task with checker, merger, workers, tickers and the storage flusher. Oracle: full snapshot (schema text, columns, indexes, foreign key links both ways, views, info entries, rows through every index with offsets, counts) before every clean close equals the snapshot after reopen; rows equal the model. Non-trivial: at least 2 states were persisted and at least one table exists at the end. Distinct: run digest.",
 		Assume: h4assume,
 		Comps: map[string]string{"db19 incl. stor.MmapStor on a real file, repair, checkdb": "real", "db19/tools (dump, load, compact)": "real", "dbms/query admin parser + DoAdmin": "real", "client concurrency": "one sequential driver task (background pipeline tasks are concurrent)", "query engine / interpreter / triggers": "stub: MakeSuTran returns an empty SuTran", "sync, atomics, channels, select, time, rand, maphash, log": "simulated seams (simrt)"},
 	},
 	"C21": {
 		ID: "C21", SetConst: h4const, Harness: "h4dura", Mode: "C21", Pkgs: dbPkgs,
-		QuickS: 60, ThoroughS: 1200, Recycle: 60, Level: "exploration",
+		QuickS: 60, ThoroughS: 600, Recycle: 60, Level: "exploration",
 		Rule: "each run: a generated history of 5-40 operations on a real memory mapped database file in a scratch directory: admin requests (create / ensure / alter create|drop|rename / rename / view / drop, valid and invalid, with foreign keys incl. self references and requests that must be refused), sequential transactions (insert / update / delete incl. cascades and large records), explicit persists, think times up to 70 s (ticker persists, chain flattening), clean restarts; knobs: persist interval 0.3-60 s, btree split 4-100, hash degraded to 64/16/6 bits, 1-4 workers; the tape decides every interleaving of the driver task with checker, merger, workers, tickers and the storage flusher. Oracle after every admin request: refused => snapshot unchanged; succeeded => must-fail rules not violated, every table has a key, index columns exist, Fk/FkToHere mutually consistent with correct index numbers, schema and info tables agree, rows through every index equal the model, schema text re-parses; differential check across restart. Non-trivial: at least 2 states were persisted and at least one table exists at the end. Distinct: run digest.",
 		Assume: h4assume,
 		Comps: map[string]string{"db19 incl. stor.MmapStor on a real file, repair, checkdb": "real", "db19/tools (dump, load, compact)": "real", "dbms/query admin parser + DoAdmin": "real", "client concurrency": "one sequential driver task (background pipeline tasks are concurrent)", "query engine / interpreter / triggers": "stub: MakeSuTran returns an empty SuTran", "sync, atomics, channels, select, time, rand, maphash, log": "simulated seams (simrt)"},
 	},
 	"C19": {
 		ID: "C19", SetConst: h4const, Harness: "h4dura", Mode: "C19", Pkgs: dbPkgs,
-		QuickS: 60, ThoroughS: 1200, Recycle: 60, Level: "exploration",
+		QuickS: 60, ThoroughS: 600, Recycle: 60, Level: "exploration",
 		Rule: "each run: a generated history of 5-40 operations on a real memory mapped database file in a scratch directory: admin requests (create / ensure / alter create|drop|rename / rename / view / drop, valid and invalid, with foreign keys incl. self references and requests that must be refused), sequential transactions (insert / update / delete incl. cascades and large records), explicit persists, think times up to 70 s (ticker persists, chain flattening), clean restarts; knobs: persist interval 0.3-60 s, btree split 4-100, hash degraded to 64/16/6 bits, 1-4 workers; the tape decides every interleaving of the driver task with checker, merger, workers, tickers and the storage flusher. Oracle: stepping with Asof(-1) from the current state visits exactly the persisted states in reverse order with non-decreasing times inside their observed bounds and the contents persisted at each; Asof(t) for tape-chosen t lands on max{i: t_i <= t} (or the first state); live and after reopen. Non-trivial: at least 2 states were persisted and at least one table exists at the end. Distinct: run digest.",
 		Assume: h4assume,
 		Comps: map[string]string{"db19 incl. stor.MmapStor on a real file, repair, checkdb": "real", "db19/tools (dump, load, compact)": "real", "dbms/query admin parser + DoAdmin": "real", "client concurrency": "one sequential driver task (background pipeline tasks are concurrent)", "query engine / interpreter / triggers": "stub: MakeSuTran returns an empty SuTran", "sync, atomics, channels, select, time, rand, maphash, log": "simulated seams (simrt)"},
 	},
 	"C20": {
 		ID: "C20", SetConst: h4const, Harness: "h4dura", Mode: "C20", Pkgs: dbPkgs,
-		QuickS: 60, ThoroughS: 1200, Recycle: 60, Level: "exploration",
+		QuickS: 60, ThoroughS: 600, Recycle: 60, Level: "exploration",
 		Rule: "each run: a generated history of 5-40 operations on a real memory mapped database file in a scratch directory: admin requests (create / ensure / alter create|drop|rename / rename / view / drop, valid and invalid, with foreign keys incl. self references and requests that must be refused), sequential transactions (insert / update / delete incl. cascades and large records), explicit persists, think times up to 70 s (ticker persists, chain flattening), clean restarts; knobs: persist interval 0.3-60 s, btree split 4-100, hash degraded to 64/16/6 bits, 1-4 workers; the tape decides every interleaving of the driver task with checker, merger, workers, tickers and the storage flusher. Oracle at the end of the history: DumpDatabase+LoadDatabase, Compact (on a copy) and DumpTable+LoadTable each yield a database that opens, passes the full check and has the same tables, columns, indexes, foreign keys, views and rows as the original. Non-trivial: at least 2 states were persisted and at least one table exists at the end. Distinct: run digest.",
 		Assume: h4assume,
 		Comps: map[string]string{"db19 incl. stor.MmapStor on a real file, repair, checkdb": "real", "db19/tools (dump, load, compact)": "real", "dbms/query admin parser + DoAdmin": "real", "client concurrency": "one sequential driver task (background pipeline tasks are concurrent)", "query engine / interpreter / triggers": "stub: MakeSuTran returns an empty SuTran", "sync, atomics, channels, select, time, rand, maphash, log": "simulated seams (simrt)"},
 	},
 	"C05": {
 		ID: "C05", SetConst: h4const, Harness: "h4dura", Mode: "C05", Pkgs: dbPkgs,
-		QuickS: 90, ThoroughS: 1200, Recycle: 60, Level: "fault_enumeration",
+		QuickS: 90, ThoroughS: 600, Recycle: 60, Level: "fault_enumeration",
 		Rule: "each run: a generated history of 5-40 operations on a real memory mapped database file in a scratch directory: admin requests (create / ensure / alter create|drop|rename / rename / view / drop, valid and invalid, with foreign keys incl. self references and requests that must be refused), sequential transactions (insert / update / delete incl. cascades and large records), explicit persists, think times up to 70 s (ticker persists, chain flattening), clean restarts; knobs: persist interval 0.3-60 s, btree split 4-100, hash degraded to 64/16/6 bits, 1-4 workers; the tape decides every interleaving of the driver task with checker, merger, workers, tickers and the storage flusher. Oracle: 1-3 crash images (file bytes [0,Size()) at tape-chosen scheduler steps) plus the cleanly closed file, each truncated at structural offsets +-1, bytes inside the last state records and markers, and tape-chosen offsets, with the tail absent / zero filled / garbage (<=150 damaged files per run): open must return an error (or open a clean earlier file to that close's contents), check and repair must return without panicking; if a completely written state record lies below the truncation point repair must succeed, the result must open, pass the full check and hold exactly the contents persisted with the newest such record; otherwise repair must fail. Non-trivial: at least 2 states were persisted and at least one table exists at the end. Distinct: run digest.",
 		Assume: h4assume,
 		Comps: map[string]string{"db19 incl. stor.MmapStor on a real file, repair, checkdb": "real", "db19/tools (dump, load, compact)": "real", "dbms/query admin parser + DoAdmin": "real", "client concurrency": "one sequential driver task (background pipeline tasks are concurrent)", "query engine / interpreter / triggers": "stub: MakeSuTran returns an empty SuTran", "sync, atomics, channels, select, time, rand, maphash, log": "simulated seams (simrt)"},
 	},
 	"H4ALL": {
 		ID: "H4ALL", SetConst: h4const, Harness: "h4dura", Mode: "ALL", Pkgs: dbPkgs,
-		QuickS: 60, ThoroughS: 1200, Recycle: 40, Level: "exploration",
+		QuickS: 60, ThoroughS: 600, Recycle: 40, Level: "exploration",
 		Rule: "development: all H4 oracles", Assume: h4assume,
 	},
 	"C40": {
 		ID: "C40", Harness: "h6net", Mode: "C40", Pkgs: dbPkgs,
-		QuickS: 60, ThoroughS: 1200, Recycle: 150, Level: "exploration",
+		QuickS: 60, ThoroughS: 600, Recycle: 150, Level: "exploration",
 		Rule: "each run: two identical databases; 1-4 sessions on one simulated connection each run a generated program of 3-25 operations (begin read/update transaction, query with sort / where / project, get next/prev, output incl. records up to 900 KB, update, erase, insert/update/delete statements, get-one in four directions, complete/abort, admin requests on the session's own table, think) through the real client, TLS, mux and server, and the same program directly on a DbmsLocal of the twin; the transport fragments writes, shortens reads and delays delivery by tape choices; the tape decides every interleaving of sessions, mux reader, workers and both database pipelines. Non-trivial: at least one session ran. Distinct: run digest.",
 		Assume: h6assume,
 		Comps:  h6comps,
 	},
 	"C41": {
 		ID: "C41", Harness: "h6net", Mode: "C41", Pkgs: dbPkgs,
-		QuickS: 60, ThoroughS: 1200, Recycle: 150, Level: "exploration",
+		QuickS: 60, ThoroughS: 600, Recycle: 150, Level: "exploration",
 		Rule: "each run: a database with a users table; one connection authenticates properly (nonce + password hash), obtains 0-2 tokens and keeps reading; 1-3 unauthenticated connections each send 5-60 generated requests: nonce, allowed requests, authentication attempts (wrong password, right password over own fresh / used / expired nonce, over another connection's nonce, made up token, token handed to the authenticated party, empty), every typed request (Admin, Check, Connections, Cursor, Cursors, Exec, Final, Get, Info, Kill, Log, Run, Size, Timestamp, Token, Transaction, Transactions) and raw transaction / query / cursor commands with ids 0-3; think times up to 150 s so that nonces and tokens expire. Non-trivial: at least 3 requests had to be refused. Distinct: run digest.",
 		Assume: h6assume,
 		Comps:  h6comps,
 	},
 	"H6ALL": {
 		ID: "H6ALL", Harness: "h6net", Mode: "ALL", Pkgs: dbPkgs,
-		QuickS: 60, ThoroughS: 1200, Recycle: 150, Level: "exploration",
+		QuickS: 60, ThoroughS: 600, Recycle: 150, Level: "exploration",
 		Rule: "development: all H6 oracles", Assume: h6assume,
 	},
 	"C43": {
 		ID: "C43", Harness: "h7obj", Mode: "C43", Pkgs: []string{"core"},
 		StmtYield: "core/suobject.go,core/surecord.go",
-		QuickS: 40, ThoroughS: 900, Recycle: 5000, Level: "exploration",
+		QuickS: 40, ThoroughS: 600, Recycle: 5000, Level: "exploration",
 		Rule: "each run: one container - a SuObject, a SuRecord built member by member, or a SuRecord that still reads from its database row (0-3 list and 0-2 named members) - made concurrent and shared by 2-4 threads that each perform 1-6 (copy-on-write runs: 1-9) single-call operations (add, put, get, delete, erase, size, list/named size, has, find, pop first/last, insert, copy, slice; on private copies: put, add, delete, check) with keys 0-8 (records: members f0-f4 and 5-8) and values 0-3; a scheduling point precedes every statement of core/suobject.go and core/surecord.go and every lock operation. Non-trivial: at least 3 operations. Distinct: run digest.",
 		Assume: []string{"decides only what is visible at sequentially consistent granularity: no Go run-time error, linearizable results of single-call operations (incl. taking a copy and the final contents) and private copies that stay private; it cannot see data races in the Go memory model sense (tasks are serialised) - that half of the property needs the race detector on real parallel executions", "the sequential specification is the same SuObject / SuRecord code run single-threaded (sequential semantics are C36's subject); a row-backed record is specified by the record with the same members", "records are used without rules and observers (no interpreter thread); closures and classes are not covered"},
 		Comps:  map[string]string{"core.SuObject and core.SuRecord methods and locking (rwMayLock), copy-on-write": "real, with a yield before every statement", "sync.Mutex / RWMutex": "simulated (simsync)", "interpreter / threads": "stub: harness tasks call the methods directly"},
 	},
 	"H3ALL": {
 		ID: "H3ALL", Harness: "h3txn", Mode: "ALL", Pkgs: dbPkgs,
-		QuickS: 60, ThoroughS: 1200, Recycle: 400, Level: "exploration",
+		QuickS: 60, ThoroughS: 600, Recycle: 400, Level: "exploration",
 		Rule: "development: all H3 oracles", Assume: h3assume,
 	},
 }
